@@ -4,9 +4,6 @@
 // compiled, with it on it adds no code.
 package nodes
 
-// Two records are the same record: same flag, same event instant, same value slice.
-//@ spec sameRec(a Record, b Record) bool = a.Retraction == b.Retraction && a.EventTime.ns == b.EventTime.ns && a.Values.base == b.Values.base && a.Values.off == b.Values.off && a.Values.len == b.Values.len
-
 // C05 LIMIT: at most `limit` records, OUT is a prefix of IN, and everything is forwarded if the source ends first.
 //@ func (*Limit).Run
 //@   stream 1 invariant count: 0 <= i && i == len(IN) && len(OUT) == len(IN) && len(OUTM) == len(INM)
@@ -15,6 +12,11 @@ package nodes
 //@   ensures limit: limit.Int >= 0 ==> len(OUT) <= limit.Int
 //@   ensures prefix: forall(j, 0, len(OUT), sameRec(OUT[j], IN[j]))
 //@   ensures all: ended && result == nil ==> len(OUT) == len(IN)
+// C06: an error is swallowed only when it is this node's own "limit reached" sentinel (error messages are matched
+// by content because gRPC does not carry wrapped errors); a failing limit expression fails the node.
+//@   ensures errprop: runErr != nil && !contains(errmsg(runErr), sprintf("limit %s reached", limitNodeID)) ==> result != nil
+//@   ensures errprop.limitexpr: evalErr(m.limit, ctx) != nil ==> result != nil
+//@   ensures silenced: cbErr != nil && errmsg(cbErr) == sprintf("limit %s reached", limitNodeID) ==> result == nil
 
 // C15 DISTINCT: per row class k, exactly one live output row iff the net input count is positive.
 //@ func (*Distinct).Run
@@ -24,11 +26,20 @@ package nodes
 //@   stream 1 invariant alloc: forallK(k, has(recordCounts, k) ==> 0 < addr(get(recordCounts, k)) && addr(get(recordCounts, k)) < frontier())
 //@   stream 1 invariant separation: forallK(k1, forallK(k2, has(recordCounts, k1) && has(recordCounts, k2) && k1 != k2 ==> addr(get(recordCounts, k1)) != addr(get(recordCounts, k2))))
 //@   ensures multiplicity: forallK(k, net(OUT, k) == ite(net(IN, k) >= 1, 1, 0))
-//@   ensures errprop: cbErr != nil ==> result != nil
+//@   ensures errprop: runErr != nil ==> result != nil
 
-// C11/C15 filter: OUT is drawn from IN, metadata is forwarded one for one; C06: errors propagate.
+// C11/C15 filter, eventwise: a record is forwarded, unchanged and in order, exactly when the predicate evaluates to
+// Boolean TRUE in the record's context (NULL and FALSE drop it); metadata is forwarded one for one, unchanged;
+// C06: a failing predicate, produce, metaSend or source makes Run fail.
 //@ func (*Filter).Run
 //@   stream 1 invariant counts: len(OUT) <= len(IN) && len(OUTM) == len(INM)
 //@   stream 1 invariant subset: forall(j, 0, len(OUT), exists(q, 0, len(IN), sameRec(OUT[j], IN[q])))
+//@   stream 1 step IN context: recCtx(L1_ctx, ctx, lastIn())
+//@   stream 1 step IN keep: stepErr == nil && isTrue(evalVal(m.predicate, L1_ctx)) ==> len(OUT) == old(len(OUT)) + 1 && sameRec(lastOut(), lastIn())
+//@   stream 1 step IN drop: stepErr == nil && !isTrue(evalVal(m.predicate, L1_ctx)) ==> len(OUT) == old(len(OUT))
+//@   stream 1 step IN prefix: len(OUT) >= old(len(OUT)) && forall(j, 0, old(len(OUT)), sameRec(OUT[j], old(OUT[j])))
+//@   stream 1 step IN nometa: len(OUTM) == old(len(OUTM))
+//@   stream 1 step IN errors: evalErr(m.predicate, L1_ctx) != nil ==> stepErr != nil
+//@   stream 1 step INM forward: stepErr == nil ==> len(OUTM) == old(len(OUTM)) + 1 && lastOutM() == lastInM() && len(OUT) == old(len(OUT))
 //@   ensures meta: ended ==> result != nil || len(OUTM) == len(INM)
-//@   ensures errprop: cbErr != nil ==> result != nil
+//@   ensures errprop: runErr != nil ==> result != nil
